@@ -18,3 +18,18 @@ Fixpoint run_ops (s : st) (ops : list op) (acc : list V) : list V :=
       run_ops s' tl (VL [r; v_tbl (tbl s')] :: acc)
   end.
 Definition run (n : nat) (ops : list op) : V := VL (run_ops (init n) ops []).
+
+(* whole groups sharing the terminal: after each group operation (1 mapped / 0 refused / 2 unmapped, table) *)
+From Verif Require Import Ecat.FmmuGroup.
+Fixpoint run_gops (s : gst) (ops : list gop) (acc : list V) : list V :=
+  match ops with
+  | [] => rev acc
+  | o :: tl =>
+      let s' := gstep s o in
+      let r := match o with
+               | GMap _ out_ inp => match group_enter (gtbl s) out_ inp with Some _ => VZ 1 | None => VZ 0 end
+               | GUnmap _ => VZ 2
+               end in
+      run_gops s' tl (VL [r; v_tbl (gtbl s')] :: acc)
+  end.
+Definition run_groups (n : nat) (ops : list gop) : V := VL (run_gops (ginit n) ops []).
